@@ -1287,6 +1287,8 @@ class Concatenate(CanBehaveLikeAVariable[T]):
                 all_values[id_].append(val)
             for s_id, s_val in sources.items():
                 all_values[s_id].append(s_val)
+        # no binding of the child at all (e.g. only empty collections below a flatten) is the empty concatenation
+        all_values.setdefault(self._id_, [])
         yield {k: HashedValue(v) for k, v in all_values.items()}
 
     @property
